@@ -177,7 +177,7 @@ pub fn check(ctx: &Ctx) -> i32 {
             }
         }
     }
-    let n = ctx.tier.pick(5000, 100000);
+    let n = ctx.tier.pick(8000, 100000);
     let run = |b: &[u8]| {
         let (text, cfgs) = syntax_case(ctx, b);
         run_all(&text, &cfgs)
